@@ -27,6 +27,10 @@ func init() {
 }
 */
 
+// maxSnappyRatio bounds decoded size / encoded size of a well-formed snappy block (64/3, rounded up
+// generously)
+const maxSnappyRatio = 32
+
 type snappyBuf struct {
 	buf []byte
 }
@@ -83,6 +87,12 @@ func (se snappyEncoding) Unmarshal(buf []byte, msg drpc.Message) (err error) {
 	decodedLen, err := snappy.DecodedLen(buf)
 	if err != nil {
 		return
+	}
+	// the length is declared by the sender: every element of a snappy block yields at most 64 bytes
+	// from 3 bytes of input, so a block cannot decode to more than maxSnappyRatio times its own size -
+	// refuse such a length before allocating a buffer for it
+	if decodedLen/maxSnappyRatio > len(buf) {
+		return snappy.ErrTooLarge
 	}
 
 	var unmarshalBuf *snappyBuf
